@@ -8,6 +8,7 @@ import Zlink.Model.DriverIdl
 import Zlink.Model.DriverNotif
 import Zlink.Model.DriverUnix
 import Zlink.Model.DriverAlias
+import Zlink.Model.DriverProxy
 /-! `zmodel`: reads case lines on stdin, prints for each the model's observation and the Lean
     oracle's verdict on the implementation's observation. -/
 
@@ -20,6 +21,9 @@ def handleLine (line : String) : String :=
   | "ser" :: _ => DriverSer.handle ts
   | "chain" :: _ => DriverChain.handle ts
   | "srv" :: _ => DriverSrv.handle ts
+  | "proxy" :: _ => DriverProxy.handle ts
+  | "proxyreply" :: _ => DriverProxy.handle ts
+  | "proxystream" :: _ => DriverProxy.handle ts
   | "alias" :: _ => DriverAlias.handle ts
   | "unix" :: _ => DriverUnix.handle ts
   | "notif" :: _ => DriverNotif.handle ts
